@@ -103,6 +103,8 @@ class ShaModel:
             return None
         if name == 'digest':
             return BSeq(uf('sha256', self.data, 32), 'bytes')
+        if name == 'copy':
+            return self.clone_model()
         raise Unsupported(f'SHA256.{name}')
 
 
